@@ -1,5 +1,5 @@
 #!/bin/sh
-# trymut.sh <seeded-id|path/to/patch.diff> <check ids...>: run checks against one seeded change in a private copy (/tmp/my/verif + /tmp/my/repo); /verif and /repo stay untouched
+# trymut.sh <seeded-id|path/to/patch.diff> <check ids...>: run checks against one seeded change in a private copy (/tmp/my/tmv + /tmp/my/repo); /verif and /repo stay untouched
 set -e
 s="$1"; shift
 p="/verif/seeded/$s/patch.diff"; [ -f "$p" ] || p="$s"
@@ -7,12 +7,12 @@ export GOFLAGS=-mod=mod GOPROXY=off GOSUMDB=off GOTOOLCHAIN=local
 mkdir -p /tmp/my
 [ -d /tmp/my/repo ] || git -C /repo worktree add -q --detach /tmp/my/repo HEAD
 (cd /tmp/my/repo && git checkout -q -- . && git clean -qfd pkg cmd && git apply "$p")
-rsync -a --delete --exclude .git --exclude replays --exclude seeded --exclude harmless /verif/ /tmp/my/verif/
+rsync -a --delete --exclude .git --exclude replays --exclude seeded --exclude harmless /verif/ /tmp/my/tmv/
 for c in "$@"; do
-  (cd /tmp/my/verif && VERIF_REPO=/tmp/my/repo timeout 1500 ./check $c 2>&1 | grep -v '^KNOWN-FINDING' | tail -2)
-  f=$(ls -t /tmp/my/verif/replays/$c-*.json 2>/dev/null | head -1)
+  (cd /tmp/my/tmv && VERIF_REPO=/tmp/my/repo timeout 1500 ./check $c 2>&1 | grep -v '^KNOWN-FINDING' | tail -2)
+  f=$(ls -t /tmp/my/tmv/replays/$c-*.json 2>/dev/null | head -1)
   [ -n "$f" ] && python3 -c "
 import json,sys;j=json.load(open('$f'));print('  ->',j.get('kind'),'|',j.get('oracle') or j.get('no_longer_checks'),'|',(j.get('detail') or '')[:400].replace('\n',' '))"
-  rm -rf /tmp/my/verif/replays
+  rm -rf /tmp/my/tmv/replays
 done
 (cd /tmp/my/repo && git checkout -q -- . && git clean -qfd pkg cmd)
